@@ -71,6 +71,8 @@ type recorder struct {
 	blocks  map[*ssa.BasicBlock]bool
 	header  *ssa.BasicBlock
 	ghostL  map[string]bool
+	fresh     map[string]bool // objects allocated while this recorder was active
+	heapFresh map[string]bool // object-indexed arrays written only at such objects
 }
 
 func (x *Exec) recCell(c *Cell) {
@@ -81,6 +83,31 @@ func (x *Exec) recCell(c *Cell) {
 func (x *Exec) recHeap(name string) {
 	for _, r := range x.recs {
 		r.heap[name] = true
+	}
+}
+
+// recHeapObj: a write to object obj of an object-indexed array. For a loop
+// whose body allocated obj itself the write does not touch any object that
+// existed at the loop head.
+func (x *Exec) recHeapObj(name string, obj Term) {
+	for _, r := range x.recs {
+		if r.fresh[obj.S] {
+			if r.heapFresh == nil {
+				r.heapFresh = map[string]bool{}
+			}
+			r.heapFresh[name] = true
+			continue
+		}
+		r.heap[name] = true
+	}
+}
+
+func (x *Exec) recFresh(obj Term) {
+	for _, r := range x.recs {
+		if r.fresh == nil {
+			r.fresh = map[string]bool{}
+		}
+		r.fresh[obj.S] = true
 	}
 }
 func (x *Exec) recAll(except []string) {
@@ -158,9 +185,23 @@ func (x *Exec) execBlock(st *State, fi int, b *ssa.BasicBlock, from *ssa.BasicBl
 	x.execFrom(st, fi, b, 0, from)
 }
 
-func (x *Exec) loopSpec(fr *Frame, li *loopInfo) *LoopSpec {
+func (x *Exec) loopSpec(st *State, fi int, fr *Frame, li *loopInfo) *LoopSpec {
 	c := x.contractFor(fr.fn)
 	if c == nil {
+		// a contract-less helper inlined into a function under contract takes
+		// over the loop contracts that function no longer has loops for
+		if j := x.enclosingFrame(st, fi); j >= 0 {
+			of := st.frames[j]
+			if oc := x.frameContract(of); oc != nil && li.ord > len(x.info(of.fn).loops) {
+				if sp := oc.Loops[li.ord]; sp != nil {
+					if x.inheritedLoops == nil {
+						x.inheritedLoops = map[string]bool{}
+					}
+					x.inheritedLoops[fmt.Sprintf("%s:%d", oc.Key, li.ord)] = true
+					return sp
+				}
+			}
+		}
 		return nil
 	}
 	return c.Loops[li.ord]
@@ -192,6 +233,9 @@ func (x *Exec) evalClause(st *State, env *Env, cl *Clause) (t Term, ok bool) {
 		if r := recover(); r != nil {
 			if se, isSE := r.(specError); isSE {
 				x.errorf("contract error at %s line %d: %s", cl.Kind, cl.Line, se.msg)
+				if st != nil && st.taint == "" {
+					st.taint = fmt.Sprintf("%s line %d could not be evaluated: %s", cl.Kind, cl.Line, se.msg)
+				}
 				t, ok = TrueT, false
 				return
 			}
@@ -204,7 +248,7 @@ func (x *Exec) evalClause(st *State, env *Env, cl *Clause) (t Term, ok bool) {
 
 func (x *Exec) loopEnter(st *State, fi int, li *loopInfo, from *ssa.BasicBlock) {
 	fr := st.frames[fi]
-	spec := x.loopSpec(fr, li)
+	spec := x.loopSpec(st, fi, fr, li)
 	anchor := fmt.Sprintf("loop %d", li.ord)
 	if fi > 0 {
 		anchor = fmt.Sprintf("%s loop %d", fr.fn.Name(), li.ord)
@@ -213,6 +257,7 @@ func (x *Exec) loopEnter(st *State, fi int, li *loopInfo, from *ssa.BasicBlock) 
 	if spec != nil {
 		for _, inv := range spec.Invariants {
 			env := x.envFor(st, fi, true)
+			env.loopHdr, env.outer1 = li.header, x.enclosingFrame(st, fi)+1
 			if t, ok := x.evalClause(st, env, inv); ok {
 				x.oblige(st, "inv.entry", inv.Label, anchor, t, li.header.Instrs[0].Pos())
 			}
@@ -289,10 +334,33 @@ func (x *Exec) loopEnter(st *State, fi int, li *loopInfo, from *ssa.BasicBlock) 
 	modObjs := map[string][]Term{} // heap name -> objects allowed to change
 	if spec != nil && spec.HasMod {
 		env := x.envFor(st, fi, true)
+		env.loopHdr, env.outer1 = li.header, x.enclosingFrame(st, fi)+1
 		env.heap, env.epoch = preHeap, preEpoch
 		for _, m := range spec.Modifies {
 			x.resolveModifies(st, env, m, modObjs, fmt.Sprintf("loop %d modifies", li.ord))
 		}
+	}
+	// arrays the body writes only at objects it allocated itself: objects that
+	// existed at the loop head keep their content
+	loopNow := st.now
+	for _, name := range sortedKeys(rec.heapFresh) {
+		sortS := x.heapSorts[name]
+		if rec.heap[name] || rec.all || !strings.HasPrefix(sortS, "(Array Ref") {
+			if !rec.heap[name] {
+				rec.heap[name] = true
+			}
+			continue
+		}
+		for _, r := range x.recs {
+			if r.heapFresh == nil {
+				r.heapFresh = map[string]bool{}
+			}
+			r.heapFresh[name] = true
+		}
+		cur := x.heapGet(st, name, sortS)
+		nv := x.decls.Fresh("loop."+name, sortS)
+		st.assume(Term{fmt.Sprintf("(forall ((?r Ref)) (! (=> (< (atime ?r) %s) (= (select %s ?r) (select %s ?r))) :pattern ((select %s ?r))))", loopNow.S, nv.S, cur.S, nv.S), "Bool"})
+		st.heap[name] = nv
 	}
 	names := sortedKeys(rec.heap)
 	// a loop with a modifies clause changes, of the pre-existing objects, only
@@ -341,12 +409,14 @@ func (x *Exec) loopEnter(st *State, fi int, li *loopInfo, from *ssa.BasicBlock) 
 	if spec != nil {
 		for _, inv := range spec.Invariants {
 			env := x.envFor(st, fi, true)
+			env.loopHdr, env.outer1 = li.header, x.enclosingFrame(st, fi)+1
 			if t, ok := x.evalClause(st, env, inv); ok {
 				st.assume(t)
 			}
 		}
 		if spec.Decreases != nil {
 			env := x.envFor(st, fi, true)
+			env.loopHdr, env.outer1 = li.header, x.enclosingFrame(st, fi)+1
 			func() {
 				defer func() {
 					if r := recover(); r != nil {
@@ -366,6 +436,15 @@ func (x *Exec) loopEnter(st *State, fi int, li *loopInfo, from *ssa.BasicBlock) 
 	}
 	if spec == nil && x.muted == 0 && fi == 0 {
 		x.loopsNoInv++
+	}
+	if spec == nil && st.taint == "" {
+		st.taint = "no loop contract for " + anchor
+	}
+	if spec == nil && x.muted == 0 {
+		if x.noInvLoops == nil {
+			x.noInvLoops = map[string]bool{}
+		}
+		x.noInvLoops[anchor] = true
 	}
 	x.loopHeapMods[fmt.Sprintf("%s loop %d", fr.fn.Name(), li.ord)] = names
 	// frame obligations are checked at the back edge through modObjs
@@ -434,7 +513,7 @@ func cloneLoopMods(m map[int]map[string][]Term) map[int]map[string][]Term {
 
 func (x *Exec) loopBackEdge(st *State, fi int, li *loopInfo) {
 	fr := st.frames[fi]
-	spec := x.loopSpec(fr, li)
+	spec := x.loopSpec(st, fi, fr, li)
 	anchor := fmt.Sprintf("loop %d", li.ord)
 	if fi > 0 {
 		anchor = fmt.Sprintf("%s loop %d", fr.fn.Name(), li.ord)
@@ -444,6 +523,7 @@ func (x *Exec) loopBackEdge(st *State, fi int, li *loopInfo) {
 	}
 	for _, inv := range spec.Invariants {
 		env := x.envFor(st, fi, true)
+		env.loopHdr, env.outer1 = li.header, x.enclosingFrame(st, fi)+1
 		if t, ok := x.evalClause(st, env, inv); ok {
 			x.oblige(st, "inv.preserve", inv.Label, anchor, t, li.header.Instrs[0].Pos())
 		}
@@ -451,6 +531,7 @@ func (x *Exec) loopBackEdge(st *State, fi int, li *loopInfo) {
 	if spec.Decreases != nil {
 		if d0, ok := st.ghostLoc[fmt.Sprintf("$dec.%d.%d", fi, li.ord)]; ok {
 			env := x.envFor(st, fi, true)
+			env.loopHdr, env.outer1 = li.header, x.enclosingFrame(st, fi)+1
 			func() {
 				defer func() {
 					if r := recover(); r != nil {
@@ -472,6 +553,9 @@ func (x *Exec) loopBackEdge(st *State, fi int, li *loopInfo) {
 			start, ok := entry[name]
 			if !ok || cur.S == start.S {
 				continue
+			}
+			if objs == nil || !strings.HasPrefix(sortS, "(Array Ref") {
+				continue // the whole variable (a ghost, or a whole array) is in the clause
 			}
 			var ds []string
 			for _, o := range objs {
